@@ -229,9 +229,9 @@ func (p *c11r) RunCase(ctx *runner.Ctx) runner.CaseResult {
 
 func c11ConsCases(tier string) int {
 	if tier == "thorough" {
-		return 720
+		return 840
 	}
-	return 120
+	return 140
 }
 
 func c11LinCases(tier string) int {
@@ -319,7 +319,7 @@ func (p *c11) conservation(x *res, ctx *runner.Ctx) {
 	n := mon.Pick(r, []int{2, 3, 8, 16, 64})
 	spec := adapt.TableSpec{Name: "tbl11", Hash: "h", Billing: "PAY_PER_REQUEST", Indexes: []adapt.IndexSpec{{Name: "gsi1", Hash: "g"}}}
 	key := val.Item{"h": val.Str("k")}
-	kind := []string{"add", "condput", "create", "pingpong", "batch-vs-scan", "batch-vs-failure-toggle"}[(ctx.Case/2)%6]
+	kind := []string{"add", "condput", "create", "pingpong", "batch-vs-scan", "batch-vs-failure-toggle", "multi-table-batch-vs-data"}[(ctx.Case/2)%7]
 	wit := map[string]interface{}{"adapter": adapter, "goroutines": n, "monitor": kind}
 	x.fp(true, "cons|%s|%s|%d", kind, adapter, n)
 	x.r.Counters["conservation:"+kind]++
@@ -415,7 +415,7 @@ func (p *c11) conservation(x *res, ctx *runner.Ctx) {
 	case "batch-vs-scan":
 		cl, _, _ := freshClient(adapter, spec)
 		// batch sizes on both sides of 16 (and the maximum of 25): a batch call is one atomic step whatever its size
-		k := []int{6, 17, 25, 13}[(ctx.Case/12)%4]
+		k := []int{6, 17, 25, 13}[(ctx.Case/14)%4]
 		x.set("batch_sizes", fmt.Sprint(k))
 		var torn int64
 		var tornDetail atomic.Value
@@ -459,6 +459,75 @@ func (p *c11) conservation(x *res, ctx *runner.Ctx) {
 		if torn > 0 {
 			x.viol("batch-not-atomic", kind, fmt.Sprintf("[%s] %d scans observed a half-applied BatchWriteItem, e.g. %v", adapter, torn, tornDetail.Load()), wit)
 		}
+	case "multi-table-batch-vs-data":
+		// batch calls that span TWO tables (writes, and SDK v2 batch reads) race with single-item calls, scans and
+		// other batches on the same two tables: every call returns (no lock-order deadlock between the tables),
+		// and within each table a scan sees none or all of a batch's items for that table
+		spec2 := spec
+		spec2.Name = "tbz11"
+		cl, _, _ := freshClient(adapter, spec, spec2)
+		k := []int{4, 10, 16, 24}[(ctx.Case/14)%4]
+		x.set("batch_sizes", fmt.Sprint(k))
+		var torn int64
+		var tornDetail atomic.Value
+		if !parallel(n, func(i int) {
+			switch i % 4 {
+			case 0, 1:
+				for b := 0; b < 6; b++ {
+					batch := []adapt.BatchEntry{}
+					for j := 0; j < k; j++ {
+						t := []string{spec.Name, spec2.Name}[(j+i)%2]
+						batch = append(batch, adapt.BatchEntry{Table: t, Put: val.Item{"h": val.Str(fmt.Sprintf("w%d-b%d-%d", i, b, j)), "batch": val.Str(fmt.Sprintf("w%d-b%d", i, b)), "g": val.Str("x")}})
+					}
+					cl.Do(adapt.Op{Kind: adapt.OpBatchWrite, Batch: batch})
+					if adapter == "v2" {
+						gets := []adapt.BatchEntry{}
+						for j := 0; j < k && j < 8; j++ {
+							t := []string{spec2.Name, spec.Name}[(j+i)%2]
+							gets = append(gets, adapt.BatchEntry{Table: t, Del: val.Item{"h": val.Str(fmt.Sprintf("w%d-b%d-%d", i, b, j))}})
+						}
+						cl.Do(adapt.Op{Kind: adapt.OpBatchGet, Gets: gets})
+					}
+				}
+			case 2:
+				for s := 0; s < 20; s++ {
+					t := []string{spec.Name, spec2.Name}[s%2]
+					key := val.Item{"h": val.Str(fmt.Sprintf("single-%d-%d", i, s%3))}
+					cl.Do(adapt.Op{Kind: adapt.OpPut, Table: t, Item: val.Item{"h": key["h"], "g": val.Str("y")}})
+					cl.Do(adapt.Op{Kind: adapt.OpGet, Table: t, Key: key})
+					cl.Do(mon.AddUpdate(t, key, "c", val.Num("1")))
+					cl.Do(adapt.Op{Kind: adapt.OpDescribe, Table: t})
+				}
+			default:
+				for s := 0; s < 10; s++ {
+					t := []string{spec2.Name, spec.Name}[s%2]
+					index := ""
+					if s%3 == 1 {
+						index = "gsi1"
+					}
+					sc := cl.Do(adapt.Op{Kind: adapt.OpScan, Table: t, Index: index})
+					per := map[string]int{}
+					for _, it := range sc.Items {
+						if b, ok := it["batch"]; ok {
+							per[b.Str]++
+						}
+					}
+					for b, c := range per {
+						if c != k/2 {
+							atomic.AddInt64(&torn, 1)
+							tornDetail.Store(fmt.Sprintf("scan(%s, index=%q) saw %d of the %d items batch %s wrote to that table", t, index, c, k/2, b))
+						}
+					}
+				}
+			}
+		}) {
+			x.notFinished(kind, fmt.Sprintf("[%s] batches over two tables vs single-table calls did not return", adapter), wit)
+			return
+		}
+		x.r.Evals += n * 20
+		if torn > 0 {
+			x.viol("batch-not-atomic", kind, fmt.Sprintf("[%s] %d scans observed a half-applied two-table BatchWriteItem, e.g. %v", adapter, torn, tornDetail.Load()), wit)
+		}
 	case "batch-vs-failure-toggle":
 		// writers issue batches of k unique items (and, SDK v2, batch reads of k stored items) while other
 		// goroutines switch the emulated failures on and off. A batch call is atomic with respect to the
@@ -466,7 +535,7 @@ func (p *c11) conservation(x *res, ctx *runner.Ctx) {
 		// none unprocessed, or none applied (all k unprocessed under internal-server failure, an error under
 		// the forced / deprecated one); applied + unprocessed = k in every case.
 		cl, _, _ := freshClient(adapter, spec)
-		k := []int{12, 17, 25, 20}[(ctx.Case/12)%4]
+		k := []int{12, 17, 25, 20}[(ctx.Case/14)%4]
 		x.set("batch_sizes", fmt.Sprint(k))
 		for j := 0; j < k; j++ {
 			cl.Do(adapt.Op{Kind: adapt.OpPut, Table: spec.Name, Item: val.Item{"h": val.Str(fmt.Sprintf("stored-%d", j)), "g": val.Str("x")}})
